@@ -1,0 +1,112 @@
+//go:build verif
+// +build verif
+
+package kube
+
+// Verification-only exports (compiled only with -tags verif): a client constructor that takes the
+// kubernetes and akash clientsets from the caller (fake clientsets), and direct access to the object
+// builders and the lease -> namespace mapping. No production code path references this file.
+
+import (
+	"context"
+
+	"github.com/tendermint/tendermint/libs/log"
+	"k8s.io/client-go/kubernetes"
+
+	"github.com/ovrclk/akash/manifest"
+	akashclient "github.com/ovrclk/akash/pkg/client/clientset/versioned"
+	"github.com/ovrclk/akash/provider/cluster/util"
+	mtypes "github.com/ovrclk/akash/x/market/types"
+)
+
+// VerifNewClient mirrors NewClient/newClientWithSettings (settings validation, prepareEnvironment) but uses
+// the clientsets it is given instead of opening a kube config.
+func VerifNewClient(ctx context.Context, log log.Logger, ns string, settings Settings,
+	kc kubernetes.Interface, ac akashclient.Interface) (Client, error) {
+	if err := validateSettings(settings); err != nil {
+		return nil, err
+	}
+	if err := prepareEnvironment(ctx, kc, ns); err != nil {
+		return nil, err
+	}
+	return &client{
+		settings: settings,
+		kc:       kc,
+		ac:       ac,
+		ns:       ns,
+		log:      log.With("module", "provider-cluster-kube"),
+	}, nil
+}
+
+// VerifLidNS is the lease -> namespace name mapping.
+func VerifLidNS(lid mtypes.LeaseID) string { return lidNS(lid) }
+
+// VerifBuilt is one object returned by a builder's create(), with the namespace the builder says it belongs in.
+type VerifBuilt struct {
+	NS  string // builder.ns()
+	Obj interface{}
+}
+
+// VerifBuild calls the builders' create() in the order Deploy applies them and returns what they produced.
+func VerifBuild(log log.Logger, providerNS string, settings Settings, lid mtypes.LeaseID, group *manifest.Group) ([]VerifBuilt, error) {
+	var out []VerifBuilt
+
+	nsb := newNSBuilder(settings, lid, group)
+	nsobj, err := nsb.create()
+	if err != nil {
+		return nil, err
+	}
+	out = append(out, VerifBuilt{NS: "", Obj: nsobj})
+
+	npb := newNetPolBuilder(settings, lid, group)
+	pols, err := npb.create()
+	if err != nil {
+		return nil, err
+	}
+	for _, p := range pols {
+		out = append(out, VerifBuilt{NS: npb.ns(), Obj: p})
+	}
+
+	mb := newManifestBuilder(log, settings, providerNS, lid, group)
+	mobj, err := mb.create()
+	if err != nil {
+		return nil, err
+	}
+	out = append(out, VerifBuilt{NS: mb.ns(), Obj: mobj})
+
+	for svcIdx := range group.Services {
+		service := &group.Services[svcIdx]
+		db := newDeploymentBuilder(log, settings, lid, group, service)
+		dobj, err := db.create()
+		if err != nil {
+			return nil, err
+		}
+		out = append(out, VerifBuilt{NS: db.ns(), Obj: dobj})
+		if len(service.Expose) == 0 {
+			continue
+		}
+		for _, global := range []bool{false, true} {
+			sb := newServiceBuilder(log, settings, lid, group, service, global)
+			if !sb.any() {
+				continue
+			}
+			sobj, err := sb.create()
+			if err != nil {
+				return nil, err
+			}
+			out = append(out, VerifBuilt{NS: sb.ns(), Obj: sobj})
+		}
+		for expIdx := range service.Expose {
+			if !util.ShouldBeIngress(service.Expose[expIdx]) {
+				continue
+			}
+			ib := newIngressBuilder(log, settings, lid, group, service, &service.Expose[expIdx])
+			iobj, err := ib.create()
+			if err != nil {
+				return nil, err
+			}
+			out = append(out, VerifBuilt{NS: ib.ns(), Obj: iobj})
+		}
+	}
+	return out, nil
+}
